@@ -201,8 +201,8 @@ func RunScenario13(name string, n, iters int) int {
 	go func() { wg.Wait(); close(done) }()
 	select {
 	case <-done:
-	case <-time.After(60 * time.Second):
-		fmt.Fprintln(os.Stderr, "DEADLOCK-OR-HANG: goroutines did not finish within 60s")
+	case <-time.After(150 * time.Second):
+		fmt.Fprintln(os.Stderr, "DEADLOCK-OR-HANG: goroutines did not finish within 150s")
 		return 5
 	}
 	if !Equal(any(shared), any(doc13("t"))) {
@@ -273,8 +273,8 @@ func runSpecial13(sc *scenario13, n, iters int) int {
 	go func() { wg.Wait(); close(done) }()
 	select {
 	case <-done:
-	case <-time.After(60 * time.Second):
-		fmt.Fprintln(os.Stderr, "DEADLOCK-OR-HANG: goroutines did not finish within 60s")
+	case <-time.After(150 * time.Second):
+		fmt.Fprintln(os.Stderr, "DEADLOCK-OR-HANG: goroutines did not finish within 150s")
 		return 5
 	}
 	if mismatches > 0 {
@@ -319,8 +319,8 @@ func runCold13(sc *scenario13, n, iters int, shared map[string]any, want []any) 
 		go func() { wg.Wait(); close(done) }()
 		select {
 		case <-done:
-		case <-time.After(60 * time.Second):
-			fmt.Fprintln(os.Stderr, "DEADLOCK-OR-HANG: goroutines did not finish within 60s")
+		case <-time.After(150 * time.Second):
+			fmt.Fprintln(os.Stderr, "DEADLOCK-OR-HANG: goroutines did not finish within 150s")
 			return 5
 		}
 	}
@@ -364,7 +364,7 @@ func init() {
 					var err error
 					select {
 					case err = <-done:
-					case <-time.After(3 * time.Minute):
+					case <-time.After(6 * time.Minute):
 						cmd.Process.Kill()
 						err = fmt.Errorf("timeout")
 					}
